@@ -24,8 +24,8 @@ func (m *VM) tokenBytes(t *TokObj) []byte {
 // wellFormed: the independent decoder's judgement that the bytes follow the
 // published schema: every block parses under version 3 with resolvable
 // symbols and 32/64-byte keys and signatures.
-func wellFormed(data []byte) bool {
-	_, env, problems, err := ref.DecodeToken(data)
+func wellFormed(data []byte, base []string) bool {
+	_, env, problems, err := ref.DecodeTokenBase(data, base)
 	if err != nil || len(problems) > 0 {
 		return false
 	}
@@ -167,7 +167,7 @@ func (o ChainOracle) AfterStep(m *VM, rec *Rec) {
 		return
 	}
 	// completeness
-	if refValid && refValid2 && wellFormed(data) {
+	if refValid && refValid2 && wellFormed(data, t.Base) {
 		m.Violate(o.Prop, "valid-token-rejected", "well-formed token with an unbroken chain rejected: "+azErr,
 			fmt.Sprintf("op %d: reference accepts the chain under key %x but the library rejected it (%s)\nmutations: %v", rec.I, key, errText, m.mutsOf(t)))
 	}
@@ -425,7 +425,7 @@ func (RootIDOracle) AfterStep(m *VM, rec *Rec) {
 		if azErr == "" {
 			m.Violate("C16", "wrong-key-used", "token accepted although the key registered under its id does not verify it",
 				fmt.Sprintf("op %d: token id %s; key map %+v default %d", rec.I, rootIDStr(env.RootKeyID), op.KS.Map, op.KS.Def))
-		} else if wellFormed(data) {
+		} else if wellFormed(data, t.Base) {
 			m.Violate("C16", "right-key-not-used", "token rejected although the key registered under its id verifies it",
 				fmt.Sprintf("op %d: token id %s; key map %+v default %d; result %q (%s)", rec.I, rootIDStr(env.RootKeyID), op.KS.Map, op.KS.Def, azErr, rec.V.AzErrText))
 		}
@@ -492,6 +492,9 @@ func (RevocationOracle) checkToken(m *VM, rec *Rec, t *TokObj) {
 	// id i == signature of block i as read by the independent decoder
 	ser, err := t.B.Serialize()
 	if err == nil {
+		if _, derr := ref.DecodeBiscuit(ser); derr != nil {
+			m.Violate("C17", "id-is-not-signature", "the independent decoder cannot read what an honest token serializes to, so no block signature matches its ids", fmt.Sprintf("op %d (%s): %v", rec.I, rec.K, derr))
+		}
 		if env, err := ref.DecodeBiscuit(ser); err == nil {
 			for i, sb := range env.All() {
 				if i < len(ids) && !bytes.Equal(sb.Signature, ids[i]) {
